@@ -25,7 +25,12 @@ def build_graph(src, cfg, mask, k, t):
     if key in _G:
         return _G[key]
     if src == "cfg":
-        flt = c12.make_filter(cfg["k"], cfg["run"], cfg["gc"], cfg["motifs"])
+        try:
+            flt = c12.make_filter(cfg["k"], cfg["run"], cfg["gc"], cfg["motifs"])
+        except Exception as e:  # noqa  a constructor stricter than the specification's: no graph, the case is vacuous
+            res = (None, "constructor:" + type(e).__name__, [], None)
+            _G[key] = res
+            return res
     else:
         flt = c11.DocumentedFilter(c11.kmers_of(mask, k))
     r = impl.call(dsw.find_vertices, k, flt)
